@@ -99,6 +99,9 @@ def unions(tier):
     # one object holding the SAME variants in both orders (first: oneOf[X, Y], second: oneOf[Y, X]): each property follows its own order
     for sel in itertools.permutations(["VA", "VAB", "VAC", "VB"], 2):
         out.append({"variants": list(sel), "disc": "none", "nullable": False, "kw": "oneOf", "rev": True})
+    for sel in (["VA", "VB"], ["VB", "VA"], ["VAB", "VOpt"], ["VOpt", "VAB"], ["VAC", "VB", "VA"]):
+        for disc in ("mapping-bare", "mapping-enum"):
+            out.append({"variants": list(sel), "disc": disc, "nullable": False, "kw": "oneOf"})
     return out
 
 
@@ -127,6 +130,9 @@ def build_doc(us):
                 # discriminated twins carry a required `kind`
                 d = json.loads(json.dumps(VARIANTS[v][0]))
                 d["properties"][u.get("prop", "kind")] = {"type": "string"}
+                if u["disc"] == "mapping-enum":
+                    # the variant itself lists a second value that the mapping does not know
+                    d["properties"][u.get("prop", "kind")]["enum"] = [v.lower(), v.lower() + "-legacy"]
                 d["required"] = sorted(set(d.get("required", [])) | {u.get("prop", "kind")})
                 schemas[twin(v, i)] = d
             if v in OBJECTS:
@@ -136,8 +142,9 @@ def build_doc(us):
         s = {u["kw"]: members}
         if u["nullable"]:
             s["nullable"] = True
-        if u["disc"] in ("mapping", "mapping2"):
-            s["discriminator"] = {"propertyName": u.get("prop", "kind"), "mapping": {v.lower(): "#/components/schemas/" + twin(v, i) for v in u["variants"]}}
+        if u["disc"] in ("mapping", "mapping2", "mapping-bare", "mapping-enum"):
+            pre = "" if u["disc"] == "mapping-bare" else "#/components/schemas/"   # mapping values may be bare schema names
+            s["discriminator"] = {"propertyName": u.get("prop", "kind"), "mapping": {v.lower(): pre + twin(v, i) for v in u["variants"]}}
             if u["disc"] == "mapping2":
                 # non-injective mapping: a second discriminator value for the first variant
                 s["discriminator"]["mapping"]["alt"] = "#/components/schemas/" + twin(u["variants"][0], i)
@@ -160,10 +167,14 @@ def payloads(u, i=0):
             if u["disc"] == "none":
                 out.append((f"{v}:{json.dumps(p)}", p, {}))
             else:
-                val = v.lower() if u["disc"] in ("mapping", "mapping2") else twin(v, i)
+                val = v.lower() if u["disc"] in ("mapping", "mapping2", "mapping-bare", "mapping-enum") else twin(v, i)
                 q = dict(p)
                 q[u.get("prop", "kind")] = val
                 out.append((f"{v}:{json.dumps(p)}+kind", q, {"class": twin(v, i)}))
+                if u["disc"] == "mapping-enum":
+                    q3 = dict(p)
+                    q3[u.get("prop", "kind")] = v.lower() + "-legacy"   # in the variant's enum, absent from the mapping: cannot be dispatched
+                    out.append((f"{v}:{json.dumps(p)}+kind=legacy", q3, {"error": True}))
                 if u["disc"] == "mapping2" and v == u["variants"][0]:
                     q2 = dict(p)
                     q2[u.get("prop", "kind")] = "alt"
@@ -175,7 +186,7 @@ def payloads(u, i=0):
         for v in u["variants"]:
             req = VARIANTS[v][0].get("required", [])
             if req:
-                val = v.lower() if u["disc"] in ("mapping", "mapping2") else twin(v, i)
+                val = v.lower() if u["disc"] in ("mapping", "mapping2", "mapping-bare", "mapping-enum") else twin(v, i)
                 # payload of a mapped variant that lacks its required fields but would fit another variant
                 other = {"c": True, "b": 2} if "a" in req else {"a": "x", "c": True}
                 q = dict(other)
@@ -266,7 +277,7 @@ def run_case(case):
                 if exp.get("error"):
                     if not err:
                         back = d.get("back")
-                        add(f"{'unmapped discriminator value' if label == 'unmapped' else 'invalid payload of the mapped variant'} accepted instead of reported",
+                        add(f"{'unmapped discriminator value' if (label == 'unmapped' or label.endswith('=legacy')) else 'invalid payload of the mapped variant'} accepted instead of reported",
                             f"decoded to {json.dumps(back)[:120]}")
                     elif err["type"] not in ("ValueError", "TypeError", "KeyError") and "Error" not in err["type"]:
                         add(f"reported with {err['type']}", err["msg"][:120])
